@@ -498,14 +498,14 @@ import (
 func TestGovcReplay(t *testing.T) {
 	conf := DefaultConfig()
 	conf.LocalID = "me"
-	conf.skipStartup = true // no run loop: the state of a server whose loops have exited
-	conf.BatchApplyCh = true
+	conf.BatchApplyCh = true // buffered applyCh (verifyCh and leadershipTransferCh are always buffered)
 	store := NewInmemStore()
 	_, trans := NewInmemTransport("me")
 	r, err := NewRaft(conf, &MockFSM{}, store, store, NewInmemSnapshotStore(), trans)
 	if err != nil {
 		t.Fatal(err)
 	}
+	// a real server with its run loops; Shutdown waits until they have exited
 	if err := r.Shutdown().Error(); err != nil {
 		t.Fatal(err)
 	}
